@@ -6,6 +6,7 @@ fn main() {
     let vm = gluon::new_vm();
     vm.get_database_mut().implicit_prelude(false);
     vm.get_database_mut().run_io(true);
+    vm.load_script("simtypes", "type Tree = | Leaf Int | Node Tree String Tree | Tip\n{ Tree }\n").unwrap();
     for (i, p) in std::env::args().skip(1).enumerate() {
         let p = p.replace("\\n", "\n");
         match vm.run_expr::<OpaqueValue<RootedThread, Hole>>(&format!("t{}", i), &p) {
